@@ -107,7 +107,7 @@ _purify.last_selects = {}
 def _solve_one(task):
     """Portfolio over (stage x hypothesis set): cheap stages first, each on the relevance-filtered hypotheses
     (when they differ from the full set) and then on all hypotheses.  `sat` is only believed from the full set."""
-    name, smt2, timeout_s, want_model, smt2_rel = task
+    name, smt2, timeout_s, want_model, smt2_rel, smt2_cone = task
     import z3
     t0 = time.time()
     out = dict(name=name, verdict="unknown", backend=None, time=0.0, model=None, detail="")
@@ -116,9 +116,19 @@ def _solve_one(task):
               ("z3", {}, min(timeout_s, 4.0)), ("z3-arith2", {"smt.arith.solver": 2}, min(timeout_s, 6.0))]
     if timeout_s > 4.0:
         stages.append(("z3", {}, timeout_s))
-    texts = ([("+relevant-hyps", smt2_rel)] if smt2_rel else []) + [("", smt2)]
+    texts = ([("+cone", smt2_cone)] if smt2_cone else []) + ([("+relevant-hyps", smt2_rel)] if smt2_rel else []) + [("", smt2)]
     done = False
-    for label, opts0, tmo in stages:
+    # z3 5.1 command-line front end first: on the quantified VCs it is often far quicker than the API solver object
+    # on the very same text (measured: 0.25 s against > 100 s on C12's interval-DP invariant)
+    cli = _z3_cli()
+    if cli:
+        for suffix, text in texts:
+            r = _run_cli([cli, "-t:%d" % int(min(timeout_s, 10.0) * 1000)], text, min(timeout_s, 10.0) + 5)
+            if r == "unsat":
+                out["verdict"], out["backend"] = "unsat", "z3-cli-5.1%s" % suffix
+                done = True
+                break
+    for label, opts0, tmo in ([] if done else stages):
         for suffix, text in texts:
             full = suffix == ""
             try:
@@ -157,6 +167,30 @@ def _solve_one(task):
                 os.unlink(path)
     out["time"] = round(time.time() - t0, 3)
     return out
+
+
+_CLI = []
+
+
+def _z3_cli():
+    if not _CLI:
+        import sys
+        cand = [os.path.join(os.path.dirname(sys.executable), "z3"), "/usr/local/bin/z3-new", "/opt/veriftools/pyvenv/bin/z3"]
+        _CLI.append(next((c for c in cand if os.path.exists(c)), None))
+    return _CLI[0]
+
+
+def _run_cli(cmd, text, limit):
+    with tempfile.NamedTemporaryFile("w", suffix=".smt2", delete=False) as f:
+        f.write(text)
+        path = f.name
+    try:
+        p = subprocess.run(cmd + [path], capture_output=True, text=True, timeout=limit)
+        return (p.stdout.strip().splitlines() or [""])[0]
+    except Exception:
+        return None
+    finally:
+        os.unlink(path)
 
 
 def _stage(z3, label, opts, tmo, smt2, want_model, out):
@@ -275,7 +309,7 @@ def _scalar(e):
 
 def solve_all(obligations, timeout_s=20, procs=None, want_model=True):
     tasks = [(o["name"], o["smt2"], min(timeout_s, 5) if o.get("kind") == "cover" else min(timeout_s, o.get("kind_timeout", timeout_s)), want_model,
-              o.get("smt2_rel")) for o in obligations]
+              o.get("smt2_rel"), o.get("smt2_cone")) for o in obligations]
     if not tasks:
         return []
     procs = procs or min(16, os.cpu_count() or 4, len(tasks))
